@@ -120,7 +120,7 @@ def run(pid, tier, replay=None):
     ck.part("coverage_by_operation", **{OPS[i]: n for i, n in enumerate(opcount) if i and i < 24})
     ck.part("coverage_by_case", **{CASES[i]: n for i, n in enumerate(casecount) if i < len(CASES)})
     missing = [OPS[i] for i in range(1, 24) if opcount[i] == 0] + [CASES[i] for i in range(1, 7) if casecount[i] == 0]
-    if missing:
+    if missing and not ck.violations:      # (a crashed replay has its own violation; its counters are empty)
         raise Broken("vacuity: never exercised: %s" % missing)
     files = vlib.drop_partial_lines(sorted(files))
     spec = os.path.join(SPECDIR, "SeqTrace.tla"); cfgt = os.path.join(SPECDIR, "SeqTrace.cfg")
